@@ -110,7 +110,7 @@ func originHandler(w http.ResponseWriter, r *http.Request) {
 		}
 	}
 	w.WriteHeader(st)
-	w.Write([]byte("origin")) // nolint:errcheck
+	w.Write([]byte("origin " + r.URL.RequestURI())) // nolint:errcheck
 }
 
 func startOrigin() {
